@@ -320,3 +320,45 @@ Proof.
   intros W Hnow Hu. exists (normalise now s).
   split; [apply decode_encode_rt; assumption|apply rewrite_reproduces_unclamped; assumption].
 Qed.
+
+(* ------------------------------------------------------------------------------------------------ *)
+(** * Dropping DELETED blocks before the save (fs_position_clear_deleted) *)
+(* In the C the DELETED blocks of a disk live in extents of fake "deleted" files and dropping one position out of the
+   middle of an extent splits it (fs_deallocate).  The model keeps the map  parity position -> hash  itself, so the
+   clean-up is a filter on that map; what the split must preserve is stated here: every position that is kept has
+   the hash it had, every position that is dropped (unused by every disk, below blockmax) has none. *)
+Lemma find_filter_none {A} (p q : A -> bool) : forall l, (forall x, In x l -> p x = true -> q x = false) -> find p (filter q l) = None.
+Proof.
+  induction l as [|x l IH]; intros H; [reflexivity|]. cbn [filter].
+  destruct (q x) eqn:Eq.
+  - cbn [find]. destruct (p x) eqn:Ep; [rewrite (H x (or_introl eq_refl) Ep) in Eq; discriminate|].
+    apply IH. intros y Hy. apply H. right. exact Hy.
+  - apply IH. intros y Hy. apply H. right. exact Hy.
+Qed.
+
+Theorem clear_deleted_keeps_hashes s d pos :
+  deleted_at (prep_disk s (alloc_size s) d) pos =
+  if negb (pos <? alloc_size s) || position_required s pos then deleted_at d pos else None.
+Proof.
+  unfold deleted_at. cbn [prep_disk set_deleted cd_deleted].
+  destruct (negb (pos <? alloc_size s) || position_required s pos) eqn:E.
+  - rewrite find_filter; [reflexivity|]. intros ph _ Hk. apply N.eqb_eq in Hk. rewrite Hk. exact E.
+  - rewrite find_filter_none; [reflexivity|]. intros ph _ Hk. apply N.eqb_eq in Hk. rewrite Hk. exact E.
+Qed.
+
+(* the same through the whole save + load: a DELETED block that survives has the hash it had *)
+Corollary saved_deleted_hash now s : forall d', In d' (c_disks (normalise now s)) -> forall pos h,
+  deleted_at d' pos = Some h -> exists d, In d (c_disks s) /\ cd_name d = cd_name d' /\ deleted_at d pos = Some h.
+Proof.
+  intros d' Hd pos h Hh. change (c_disks (normalise now s)) with (norm_disks (alloc_size s) (pdisks s) (p_idx (prepare s))) in Hd.
+  destruct (norm_disks_in (alloc_size s) (pdisks s) (p_idx (prepare s)) d' Hd) as [x [oi [Hx ->]]].
+  unfold pdisks in Hx. apply in_map_iff in Hx. destruct Hx as [y [<- Hy]]. exists y. split; [exact Hy|].
+  destruct oi as [i|]; [|discriminate]. split; [reflexivity|].
+  unfold deleted_at in Hh. cbn [norm_disk set_deleted cd_deleted] in Hh.
+  destruct (find (fun ph => fst ph =? pos) (filter (fun ph => fst ph <? alloc_size s) (cd_deleted (prep_disk s (alloc_size s) y)))) as [ph|] eqn:E; [|discriminate].
+  injection Hh as <-. pose proof (find_some _ _ E) as [Hin Hk]. apply filter_In in Hin. destruct Hin as [_ Hlt]. apply N.eqb_eq in Hk.
+  rewrite find_filter in E by (intros z _ Hz; apply N.eqb_eq in Hz; rewrite Hz, <- Hk; exact Hlt).
+  pose proof (clear_deleted_keeps_hashes s y pos) as C. unfold deleted_at in C. rewrite E in C.
+  destruct (negb (pos <? alloc_size s) || position_required s pos); [|discriminate].
+  unfold deleted_at. destruct (find (fun ph0 => fst ph0 =? pos) (cd_deleted y)) as [ph'|]; [|discriminate]. injection C as <-. reflexivity.
+Qed.
